@@ -12,6 +12,7 @@ open Proto Coords
       rot    ra1 dec1 ra2 dec2 ra3 dec3   -> ra dec      (rotate_spherical_vector)
       reloc  sRa sDec tRa tDec rRa rDec   -> ra dec      (rotate_signal_events_on_sphere)
       psifield <src ra,dec,...> <evt ra,dec,...> <pairs k,e,...> <floor|->   -> psi list (ERR = IndexError)
+      psffield <src ra,dec,...> <evt ra,dec,...> <sigma per event> <pairs k,e,...>   -> density list
       psf    sigma evtRa evtDec srcRa srcDec -> Gaussian PSF density
 -/
 def pairsF : List Float → List (Float × Float)
@@ -48,6 +49,9 @@ def answer (line : String) : String :=
   | ["psifield", ss, es, ps, fl] =>
       let r := psiField (pairsF (pList pF ss)) (pairsF (pList pF es)) (pairsN (pList pN ps))
         (if fl == "-" then none else some (pF fl))
+      fListD (fun o => match o with | some x => fF x | none => "ERR") r
+  | ["psffield", ss, es, sg, ps] =>
+      let r := psfField (pairsF (pList pF ss)) (pairsF (pList pF es)) (pList pF sg) (pairsN (pList pN ps))
       fListD (fun o => match o with | some x => fF x | none => "ERR") r
   | ["psf", sg, a, b, c, d] => fF (gaussPsfPd (pF sg) (pF a) (pF b) (pF c) (pF d))
   | _ => "bad-op"
